@@ -502,12 +502,108 @@ def run_nested(ctx, res, n):
                                               "document": doc, "observed": c, "input": doc})
 
 
+# ---- round 3: layouts with an ALL-ZERO Padding on captions with i / b / u spans -> WebVTT and DFXP ---------------------------
+def _zero_layouts():
+    from pycaption.geometry import Layout, Padding, Size, UnitEnum
+    z = lambda: Size(0, UnitEnum.PERCENT)       # noqa: E731
+    return {"empty-padding": Layout(padding=Padding()),
+            "zero-padding": Layout(padding=Padding(before=z(), after=z(), start=z(), end=z()))}
+
+
+def zero_padding_sets(spec, how):
+    """caption sets of ONE caption: how = ('api', name) layout objects on the caption and all of its nodes (distinct but equal
+    objects per node for 'zero-padding'); ('api-caption-only', name); ('sami', None) a SAMI document whose stylesheet sets every
+    margin to 0%, read by the SAMIReader"""
+    if how[0] == "sami":
+        doc = SAMIWriter().write(G.capset([spec]))
+        doc = doc.replace("<!--", "<!--\n    p { margin-left: 0%; margin-right: 0%; margin-top: 0%; margin-bottom: 0%; }", 1)
+        return SAMIReader().read(doc)
+    cs = G.capset([spec])
+    cap = all_caption_objects(cs)[0]
+    cap.layout_info = _zero_layouts()[how[1]]
+    if how[0] == "api":
+        for node in cap.nodes:
+            node.layout_info = _zero_layouts()[how[1]]
+    return cs
+
+
+def judge_zero_padding(spec, how):
+    """-> list of (kind, what, document)"""
+    out = []
+    try:
+        cs = zero_padding_sets(spec, how)
+    except Exception as e:      # the SAMI route failed before the writers under test ran
+        return [("setup-raises", "building the set raised %s" % type(e).__name__, None)]
+    mask = [True, True, True]
+    w = impl.call(lambda: WebVTTWriter().write(cs))
+    if not isinstance(w, Ok):
+        out.append(("writer-raises", "WebVTTWriter raised on a caption with an all-zero padding layout", None))
+    else:
+        pls = vtt_payloads_all(w.v)
+        rs = oracle_batch([(1103, [G.wire_nodes(spec), p]) for p in pls])
+        if any(r[1] == [] for r in rs):
+            out.append(("vtt-tags", "WebVTT: a cue of a caption with an all-zero padding layout has unbalanced i/b/u tags "
+                        "(a span opened in one cue and closed in another)", w.v))
+        elif len(pls) == 1 and rs[0][0] != 1:
+            out.append(("flags-differ", "WebVTT: italic/bold/underline characters differ (all-zero padding layout)", w.v))
+        elif len(pls) != 1:
+            # several cues: the flags of the concatenated cue texts must still be the authored ones
+            r = oracle_batch([(1103, [G.wire_nodes(spec), "\n".join(pls)])])[0]
+            if r[0] != 1:
+                out.append(("flags-differ", "WebVTT: flags differ over the cues of a caption with an all-zero padding layout", w.v))
+    d = impl.call(lambda: DFXPWriter().write(cs))
+    if not isinstance(d, Ok):
+        out.append(("writer-raises", "DFXPWriter raised on a caption with an all-zero padding layout", None))
+    else:
+        if not markup_ok(DFXPWriter, d.v):
+            out.append(("markup-unbalanced", "DFXPWriter output has unbalanced span markup (all-zero padding layout)", d.v))
+        rd = impl.call(lambda: DFXPReader().read(d.v))
+        final = all_captions(rd.v) if isinstance(rd, Ok) else None
+        if final is None or len(final) != 1:
+            out.append(("cue-count" if final is not None else "reader-raises", "DFXP round trip of a caption with an all-zero padding layout: "
+                        "%s" % ("reader raises" if final is None else "%d captions" % len(final)), d.v))
+        else:
+            r = oracle_batch([(1102, [[True, False, False], G.wire_nodes(spec), G.wire_nodes(final[0])]), (1100, G.wire_nodes(final[0]))])
+            if r[0] != 1:
+                out.append(("flags-differ", "DFXP: italic characters differ after the round trip (all-zero padding layout)", d.v))
+            if r[1] != 1:
+                out.append(("reader-unbalanced", "DFXP reader returned unbalanced style nodes (all-zero padding layout)", d.v))
+    return out
+
+
+ZERO_HOWS = [("api", "empty-padding"), ("api", "zero-padding"), ("api-caption-only", "zero-padding"), ("api-caption-only", "empty-padding"),
+             ("sami", None)]
+
+
+def run_zero_padding(ctx, res, n):
+    rng = ctx.rng
+    pool = [st for st in STYLE_POOL if st[3] is None]
+    for k in range(n):
+        spec = G.rand_caption_nodes(rng, adversarial=0.2, styles=0.9, style_pool=pool, edge_breaks=0.0, max_lines=3)
+        if sum(1 for x in spec if x[0] == "t") < 2 or not any(x[0] == "s" for x in spec):
+            spec = [("t", "a "), ("s", True) + pool[k % len(pool)], ("t", "b"), ("b",), ("t", "c"), ("s", False) + pool[k % len(pool)], ("t", " d")]
+        if any(x[0] == "t" and not x[1].strip() for x in spec):
+            continue
+        for how in ZERO_HOWS:
+            res["evaluations"] += 1
+            key = "zero_padding_" + how[0] + ("_" + how[1] if how[1] else "")
+            res["distribution"][key] = res["distribution"].get(key, 0) + 1
+            res["nontrivial"].add(("zero-padding-" + how[0], repr(spec)))
+            for kind, what, doc in judge_zero_padding(spec, how):
+                if kind == "setup-raises":
+                    res["distribution"]["zero_padding_setup_raises"] = res["distribution"].get("zero_padding_setup_raises", 0) + 1
+                    continue
+                res["violations"].append({"fmt": "zero-padding", "kind": kind, "what": what, "document": doc, "input": [spec],
+                                          "how": list(how), "replay": "zero-padding", "shape": "all-zero-padding-layout"})
+
+
 def run(ctx):
     res = {"evaluations": 0, "nontrivial": set(), "violations": [], "disagreements": [], "distribution": {},
-           "streams": 4, "notes": []}
+           "streams": 5, "notes": []}
     run_chains(ctx, res, ctx.n(150, 4000))
     run_scc(ctx, res, ctx.n(150, 4000))
     run_nested(ctx, res, ctx.n(12, 300))
+    run_zero_padding(ctx, res, ctx.n(14, 1200))
     res["rule"] = ("A/B: caption sets of 1-4 captions with flat balanced spans (9 style dictionaries: i, b, u, combinations, "
                    "colour only) through 6 conversion chains + WebVTT; non-trivial = a caption with at least one style node "
                    "(distinct (chain, node list)). C: generated SCC pop-on streams with italic / plain mid-row codes. "
@@ -535,6 +631,11 @@ def run(ctx):
 
 
 def replay(ctx, rec):
+    if rec.get("replay") == "zero-padding":
+        spec = [tuple(n) for n in rec["input"][0]]
+        how = tuple(rec["how"])
+        bad = [x for x in judge_zero_padding(spec, how) if x[0] != "setup-raises"]
+        return bool(bad), [x[1] for x in bad[:2]]
     r = {"evaluations": 0, "nontrivial": set(), "violations": [], "disagreements": [], "distribution": {}, "notes": []}
     kind = rec.get("replay")
     if kind in ("chain", "vtt"):
